@@ -1191,3 +1191,281 @@ Qed.
     lock discipline breaks exactly that one theorem and nothing else here. *)
 Lemma lock_table_ok_by (tbl : list lock_row) (H : check_locks tbl = true) : check_locks tbl = true.
 Proof. exact H. Qed.
+Lemma lock_facts_ok_by (tbl : list lock_row) (c : list caller_row) (H : check_lock_facts tbl c = true) :
+  check_locks tbl = true /\ check_callers c = true.
+Proof. unfold check_lock_facts in H. apply andb_true_iff in H. exact H. Qed.
+
+(** * pkg/lru, pkg/concurrent_lru: bounded and exact *)
+Lemma lfind_In k l v : lfind k l = Some v -> In (k, v) l.
+Proof.
+  induction l as [|[k' v'] l IH]; simpl; [discriminate|].
+  destruct (k' =? k) eqn:E; intro H.
+  - injection H as ->. left. f_equal. lia.
+  - right. auto.
+Qed.
+
+Lemma lfind_None k l : lfind k l = None -> ~ In k (map fst l).
+Proof.
+  induction l as [|[k' v'] l IH]; simpl; [tauto|].
+  destruct (k' =? k) eqn:E; [discriminate|]. intros H [X|X]; [lia|]. apply IH; auto.
+Qed.
+
+Lemma lremove_In k l x : In x (lremove k l) -> In x l /\ fst x <> k.
+Proof.
+  unfold lremove. intro H. apply filter_In in H as [H1 H2]. split; auto.
+  apply negb_true_iff in H2. apply N.eqb_neq in H2. exact H2.
+Qed.
+
+Lemma filter_fst_nodup {A B} (f : A * B -> bool) (l : list (A * B)) :
+  NoDup (map fst l) -> NoDup (map fst (filter f l)).
+Proof.
+  induction l as [|y l IH]; simpl; auto. intro H. inversion H as [|? ? Hni HN]; subst.
+  destruct (f y); auto. simpl. constructor; auto.
+  intro Hin. apply Hni. apply in_map_iff in Hin as [z [Hz Hin]].
+  apply in_map_iff. exists z. split; auto. apply filter_In in Hin. tauto.
+Qed.
+
+Lemma filter_len_le {A} (f : A -> bool) l : (length (filter f l) <= length l)%nat.
+Proof. induction l as [|y l IH]; simpl; [lia|]. destruct (f y); simpl; lia. Qed.
+
+Lemma lremove_length k l v : lfind k l = Some v -> (length (lremove k l) < length l)%nat.
+Proof.
+  unfold lremove. induction l as [|[k' v'] l IH]; simpl; [discriminate|].
+  pose proof (filter_len_le (fun kx : key * val => negb (fst kx =? k)) l) as FL.
+  destruct (k' =? k) eqn:E; simpl; intro H.
+  - unfold lt. apply le_n_S. exact FL.
+  - specialize (IH H). unfold lt in *. apply le_n_S. exact IH.
+Qed.
+
+Lemma nodup_snoc {A} (l : list A) x : NoDup l -> ~ In x l -> NoDup (l ++ [x]).
+Proof.
+  induction l as [|y l IH]; simpl; intros H Hn.
+  - constructor; [intros []|constructor].
+  - inversion H as [|? ? Hni HN]; subst. constructor.
+    + intro Hin. apply in_app_or in Hin as [Hin|[Hin|[]]]; [auto | subst; apply Hn; auto].
+    + apply IH; auto.
+Qed.
+
+Lemma nodup_skipn {A} n (l : list A) : NoDup l -> NoDup (skipn n l).
+Proof.
+  revert l; induction n as [|n IH]; intros [|y l] H; simpl; auto. inversion H; auto.
+Qed.
+
+Lemma skipn_In {A} n (l : list A) x : In x (skipn n l) -> In x l.
+Proof. intro H. rewrite <- (firstn_skipn n l). apply in_or_app. auto. Qed.
+
+Section LruProofs.
+Variable hash : key -> N.
+Notation lix := (lix hash).
+Notation lexec := (lexec hash).
+Notation lrun_ops := (lrun_ops hash).
+
+(** the abstract map: no shards, no recency, no capacity *)
+Definition lamap := key -> option val.
+Definition laexec (a : lamap) (o : lop) : lamap :=
+  match o with
+  | LAdd k v => fun j => if j =? k then Some v else a j
+  | LDel k => fun j => if j =? k then None else a j
+  | LClean m r => fun j => match a j with
+                           | Some v => if clean_pred m r (j, v) then None else Some v
+                           | None => None end
+  | LFlush => fun _ => None
+  | _ => a
+  end.
+Fixpoint larun (a : lamap) (ops : list lop) : lamap :=
+  match ops with [] => a | o :: t => larun (laexec a o) t end.
+
+Definition lref (s : slru) (a : lamap) : Prop :=
+  (forall i, NoDup (map fst (sl_sh s i))) /\
+  (forall i, (length (sl_sh s i) <= N.to_nat (sl_max s))%nat) /\
+  forall i k v, In (k, v) (sl_sh s i) -> i = lix s k /\ a k = Some v.
+
+(** replacing one shard *)
+Lemma lref_set s a a' i l :
+  lref s a -> NoDup (map fst l) -> (length l <= N.to_nat (sl_max s))%nat ->
+  (forall k v, In (k, v) l -> i = lix s k /\ a' k = Some v) ->
+  (forall j k v, j <> i -> In (k, v) (sl_sh s j) -> a' k = Some v) ->
+  lref (sl_set s i l) a'.
+Proof.
+  intros (U & B & R) Ul Bl Rl Ro. split; [|split]; simpl.
+  - intro j. unfold upd. destruct (j =? i); auto.
+  - intro j. unfold upd. destruct (j =? i); auto.
+  - intros j k v. unfold upd. destruct (j =? i) eqn:E.
+    + intro H. assert (j = i) by lia. subst j. apply Rl in H. exact H.
+    + intro H. split; [apply (R _ _ _ H)|]. apply (Ro j); auto. lia.
+Qed.
+
+(** touching a key moves it to the back: same entries except possibly a new value for k *)
+Lemma touch_ok s a k v l :
+  lref s a -> l = sl_sh s (lix s k) -> (exists v0, lfind k l = Some v0) ->
+  lref (sl_set s (lix s k) (lremove k l ++ [(k, v)])) (fun j => if j =? k then Some v else a j).
+Proof.
+  intros RR -> [v0 F]. pose proof RR as (U & B & R). apply lref_set with (a := a); auto.
+  - rewrite map_app. simpl. apply nodup_snoc.
+    + apply filter_fst_nodup. auto.
+    + intro H. apply in_map_iff in H as [z [Hz Hin]]. apply lremove_In in Hin. tauto.
+  - rewrite app_length. simpl. pose proof (lremove_length _ _ _ F). specialize (B (lix s k)). lia.
+  - intros k' v' H. apply in_app_or in H as [H|[H|[]]].
+    + apply lremove_In in H as [H1 H2]. simpl in H2. destruct (R _ _ _ H1) as [R1 R2].
+      split; [exact R1|]. destruct (k' =? k) eqn:E; [lia|auto].
+    + injection H as <- <-. rewrite N.eqb_refl. auto.
+  - intros j k' v' Hj H. destruct (R _ _ _ H) as [R1 R2].
+    destruct (k' =? k) eqn:E; auto. assert (k' = k) by lia. subst. contradiction.
+Qed.
+
+Lemma fold_set_sh (f : lru -> lru) ids : NoDup ids -> forall s j,
+  sl_sh (fold_left (fun a i => sl_set a i (f (sl_sh a i))) ids s) j =
+  if existsb (N.eqb j) ids then f (sl_sh s j) else sl_sh s j.
+Proof.
+  induction ids as [|i ids IH]; intros ND s j; simpl; auto.
+  inversion ND as [|? ? Hni ND']; subst. rewrite IH by auto. simpl. unfold upd.
+  destruct (j =? i) eqn:E; simpl; auto.
+  assert (j = i) by lia. subst j.
+  destruct (existsb (N.eqb i) ids) eqn:Ex; auto.
+  exfalso. apply Hni. apply existsb_exists in Ex as [z [Hz Hz']]. assert (i = z) by lia. subst. auto.
+Qed.
+
+Lemma fold_set_const (f : lru -> lru) ids s :
+  sl_n (fold_left (fun a i => sl_set a i (f (sl_sh a i))) ids s) = sl_n s /\
+  sl_max (fold_left (fun a i => sl_set a i (f (sl_sh a i))) ids s) = sl_max s.
+Proof. revert s; induction ids as [|i ids IH]; intro s; simpl; auto. destruct (IH (sl_set s i (f (sl_sh s i)))). auto. Qed.
+
+Lemma sl_ids_nodup s : NoDup (sl_ids s).
+Proof.
+  unfold sl_ids. apply FinFun.Injective_map_NoDup; [|apply seq_NoDup]. intros x y H. lia.
+Qed.
+
+Lemma in_sl_ids s i : i < sl_n s -> existsb (N.eqb i) (sl_ids s) = true.
+Proof.
+  intro H. apply existsb_exists. exists i. split; [|lia].
+  unfold sl_ids. apply in_map_iff. exists (N.to_nat i). split; [lia|]. apply in_seq. lia.
+Qed.
+
+(** every shard is rewritten by a function that only drops entries *)
+Lemma lref_fold_filter s a a' (f : lru -> lru) :
+  0 < sl_n s -> lref s a ->
+  (forall l, NoDup (map fst l) -> NoDup (map fst (f l))) ->
+  (forall l, (length (f l) <= length l)%nat) ->
+  (forall l k v, In (k, v) (f l) -> In (k, v) l) ->
+  (forall i k v, In (k, v) (f (sl_sh s i)) -> a k = Some v -> a' k = Some v) ->
+  lref (fold_left (fun x i => sl_set x i (f (sl_sh x i))) (sl_ids s) s) a'.
+Proof.
+  intros Hn (U & B & R) Fu Fl Fi Fa.
+  pose proof (fold_set_const f (sl_ids s) s) as [Cn Cm].
+  assert (IXL : forall k, lix s k < sl_n s) by (intro k; unfold CacheStore.lix; apply N.mod_lt; lia).
+  split; [|split].
+  - intro j. rewrite fold_set_sh by apply sl_ids_nodup. destruct (existsb _ _); auto.
+  - intro j. rewrite fold_set_sh by apply sl_ids_nodup. rewrite Cm.
+    destruct (existsb _ _); auto. specialize (Fl (sl_sh s j)). specialize (B j). lia.
+  - intros j k v. rewrite fold_set_sh by apply sl_ids_nodup. unfold CacheStore.lix. rewrite Cn.
+    destruct (existsb (N.eqb j) (sl_ids s)) eqn:Ex.
+    + intro H. pose proof (Fi _ _ _ H) as H0. destruct (R _ _ _ H0) as [R1 R2]. split; eauto.
+    + intro H. destruct (R _ _ _ H) as [R1 _]. subst j. rewrite in_sl_ids in Ex; [discriminate|apply IXL].
+Qed.
+
+Lemma lref_exec s a o : 0 < sl_n s -> 0 < sl_max s -> lref s a -> lref (fst (lexec s o)) (laexec a o).
+Proof.
+  intros Hn Hm RR. pose proof RR as (U & B & R). destruct o as [k v|k|k|m r| |]; cbn [CacheStore.lexec laexec].
+  - (* Add *)
+    unfold ladd. destruct (lfind k (sl_sh s (lix s k))) as [v0|] eqn:F; cbn [fst].
+    + apply touch_ok; eauto.
+    + apply lref_set with (a := a); auto.
+      * rewrite map_app. simpl. apply nodup_snoc.
+        -- rewrite <- skipn_map. apply nodup_skipn. auto.
+        -- intro H. apply (lfind_None _ _ F). rewrite <- skipn_map in H. eapply skipn_In; eauto.
+      * rewrite app_length, skipn_length. cbn [length]. specialize (B (lix s k)). lia.
+      * intros k' v' H. apply in_app_or in H as [H|[H|[]]].
+        -- apply skipn_In in H. destruct (R _ _ _ H) as [R1 R2]. split; auto.
+           destruct (k' =? k) eqn:E; auto. assert (k' = k) by lia. subst k'.
+           exfalso. apply (lfind_None _ _ F). apply (in_map fst) in H. exact H.
+        -- injection H as <- <-. rewrite N.eqb_refl. auto.
+      * intros j k' v' Hj H. destruct (R _ _ _ H) as [R1 R2].
+        destruct (k' =? k) eqn:E; auto. assert (k' = k) by lia. subst. contradiction.
+  - (* Get *)
+    unfold lget. destruct (lfind k (sl_sh s (lix s k))) as [v0|] eqn:F; cbn [fst].
+    + pose proof (touch_ok s a k v0 _ RR eq_refl (ex_intro _ v0 F)) as T.
+      destruct T as (T1 & T2 & T3). split; [|split]; auto.
+      intros i k' v' H. destruct (T3 _ _ _ H) as [X Y]. split; auto.
+      destruct (k' =? k) eqn:E; auto. assert (k' = k) by lia. subst k'.
+      apply lfind_In in F. destruct (R _ _ _ F) as [_ R2]. congruence.
+    + apply lref_set with (a := a); auto.
+      intros j k' v' _ H0. apply (R _ _ _ H0).
+  - (* Del *)
+    unfold ldel. destruct (lfind k (sl_sh s (lix s k))) as [v0|] eqn:F; cbn [fst].
+    + apply lref_set with (a := a); auto.
+      * apply filter_fst_nodup. auto.
+      * pose proof (lremove_length _ _ _ F). specialize (B (lix s k)). lia.
+      * intros k' v' H. apply lremove_In in H as [H1 H2]. simpl in H2.
+        destruct (R _ _ _ H1) as [R1 R2]. split; auto. destruct (k' =? k) eqn:E; [lia|auto].
+      * intros j k' v' Hj H. destruct (R _ _ _ H) as [R1 R2].
+        destruct (k' =? k) eqn:E; auto. assert (k' = k) by lia. subst. contradiction.
+    + apply lref_set with (a := a); auto.
+      * intros k' v' H. destruct (R _ _ _ H) as [R1 R2]. split; auto.
+        destruct (k' =? k) eqn:E; auto. assert (k' = k) by lia. subst k'.
+        exfalso. apply (lfind_None _ _ F). apply (in_map fst) in H. exact H.
+      * intros j k' v' Hj H. destruct (R _ _ _ H) as [R1 R2].
+        destruct (k' =? k) eqn:E; auto. assert (k' = k) by lia. subst. contradiction.
+  - (* Clean *)
+    apply (lref_fold_filter s a _ (fun l => fst (lclean m r l))); auto; simpl.
+    + intros l. apply filter_fst_nodup.
+    + intros l. apply filter_len_le.
+    + intros l k v H. apply filter_In in H. tauto.
+    + intros i k v H Ha. apply filter_In in H as [_ H]. rewrite Ha.
+      destruct (clean_pred m r (k, v)); [discriminate|reflexivity].
+  - exact RR.
+  - (* Flush *)
+    apply (lref_fold_filter s a _ (fun _ => [])); auto; simpl.
+    + intros. constructor.
+    + intros. lia.
+    + intros l k v [].
+    + intros i k v [].
+Qed.
+
+Lemma lexec_const s o : sl_n (fst (lexec s o)) = sl_n s /\ sl_max (fst (lexec s o)) = sl_max s.
+Proof.
+  destruct o as [k v|k|k|m r| |]; cbn [CacheStore.lexec].
+  - destruct (ladd _ _ _ _). auto.
+  - destruct (lget _ _). auto.
+  - destruct (ldel _ _). auto.
+  - apply (fold_set_const (fun l => fst (lclean m r l))).
+  - auto.
+  - apply (fold_set_const (fun _ => [])).
+Qed.
+
+Lemma lref_run ops : forall s a, 0 < sl_n s -> 0 < sl_max s -> lref s a ->
+  lref (fst (lrun_ops s ops)) (larun a ops) /\
+  sl_n (fst (lrun_ops s ops)) = sl_n s /\ sl_max (fst (lrun_ops s ops)) = sl_max s.
+Proof.
+  induction ops as [|o ops IH]; intros s a Hn Hm RR; simpl; auto.
+  pose proof (lref_exec s a o Hn Hm RR) as R1. pose proof (lexec_const s o) as [C1 C2].
+  destruct (lexec s o) as [s1 r]. simpl in *.
+  destruct (IH s1 (laexec a o)) as (A & B & C); [lia | lia | auto |].
+  destruct (lrun_ops s1 ops) as [s2 rs]. simpl in *. split; auto. split; congruence.
+Qed.
+
+Lemma lref_new n max : lref (slru_new n max) (fun _ => None).
+Proof. split; [|split]; simpl; intros; [constructor | lia | tauto]. Qed.
+
+(** Bounded: after any operation list no shard holds more than maxSize entries. *)
+Theorem lru_bounded n max ops i :
+  0 < n -> 0 < max -> (length (sl_sh (fst (lrun_ops (slru_new n max) ops)) i) <= N.to_nat max)%nat.
+Proof.
+  intros Hn Hm. destruct (lref_run ops (slru_new n max) _ Hn Hm (lref_new n max)) as ((_ & B & _) & _ & C).
+  rewrite C in B. apply B.
+Qed.
+
+(** Exact: after any operation list a Get returns nothing, or the value of the latest Add
+    under that key that was not deleted, cleaned or flushed since (never an overwritten one). *)
+Theorem lru_get_latest n max ops k :
+  0 < n -> 0 < max ->
+  let s := fst (lrun_ops (slru_new n max) ops) in
+  let a := larun (fun _ => None) ops in
+  snd (lexec s (LGet k)) = (LRGet None, []) \/
+  exists v, a k = Some v /\ snd (lexec s (LGet k)) = (LRGet (Some v), []).
+Proof.
+  intros Hn Hm s a. destruct (lref_run ops (slru_new n max) _ Hn Hm (lref_new n max)) as ((_ & _ & R) & _ & _).
+  fold s a in R. cbn [CacheStore.lexec]. unfold lget.
+  destruct (lfind k (sl_sh s (lix s k))) as [v|] eqn:F; simpl; auto.
+  right. exists v. split; auto. apply lfind_In in F. apply (R _ _ _ F).
+Qed.
+End LruProofs.
